@@ -337,15 +337,17 @@ Proof.
 Qed.
 
 (* ---- the state a run leaves whose trailing deletions may all have failed ---- *)
-Lemma Rd_live c nb A w0 e' ec ec' X ns defer' :
+Lemma Rd_post c nb A w0 e' ec ec' X ns (P : fname -> dfile -> pbatch -> Prop) :
   ext (DP c nb A) ec ec' -> LInv c nb w0 (e_disk ec') -> Rd X ns ec e' ec' ->
   (forall n f p, In n X -> ~ In n ns -> lookup n (dk_files (e_disk e')) = Some f -> df_pend f = Some p ->
-      (exists t, tail_info (st_segs w0) = Some t /\ n = name_of t /\ stale_batch c t f p defer') \/ unlisted (e_disk e') n) ->
-  Live c nb w0 (e_disk e') defer' /\ sp_of (sh (e_disk e')) = sp_of (e_disk ec').
+      P n f p \/ unlisted (e_disk e') n) ->
+  LInv c nb w0 (sh (e_disk e')) /\
+  (forall n f p, lookup n (dk_files (e_disk e')) = Some f -> df_pend f = Some p -> P n f p \/ unlisted (e_disk e') n) /\
+  sp_of (sh (e_disk e')) = sp_of (e_disk ec').
 Proof.
   intros Hext HL [HR|(ecp & HR & Eec & Ha & _)] Hcls.
   - destruct HR as (Hrel & _). pose proof HL as (_ & _ & _ & HN & _).
-    split; [split|].
+    split; [|split].
     + rewrite (drel_sh_eq _ _ _ Hrel). apply LInv_sh; exact HL.
     + intros n f p Hl Hp. assert (Hin : In n (rems ns X)) by (apply (drel_stale_ok _ _ _ Hrel HN n f Hl); congruence).
       apply (Hcls n f p (rems_incl ns X n Hin) (rems_in ns X n Hin) Hl Hp).
@@ -357,7 +359,7 @@ Proof.
     destruct (ext_pfx _ _ _ _ Hext Hp) as (HDp & _).
     rewrite Hd' in HL. destruct (undelete_sh c nb w0 (e_disk ecp) ns HL HDp) as (HL2 & Hsp2 & Hunl).
     pose proof HL as (_ & _ & _ & HN & Hmeta & _). pose proof (DIs_NoDup _ _ _ HDp) as ND.
-    split; [split|].
+    split; [|split].
     + rewrite (drel_sh_eq _ _ _ Hrel). exact HL2.
     + intros n f p Hl Hp'. destruct (mem_name n ns) eqn:En.
       * right. apply mem_name_spec in En. intros ps s Hm Hs.
@@ -372,6 +374,18 @@ Proof.
           rewrite (H6 n f g Hl Hg (not_mem_name _ _ Ex)) in Hp'. congruence. }
         apply (Hcls n f p Hin (not_mem_name _ _ En) Hl Hp').
     + rewrite (drel_sh_eq _ _ _ Hrel), Hd'. exact Hsp2.
+Qed.
+
+Lemma Rd_live c nb A w0 e' ec ec' X ns defer' :
+  ext (DP c nb A) ec ec' -> LInv c nb w0 (e_disk ec') -> Rd X ns ec e' ec' ->
+  (forall n f p, In n X -> ~ In n ns -> lookup n (dk_files (e_disk e')) = Some f -> df_pend f = Some p ->
+      (exists t, tail_info (st_segs w0) = Some t /\ n = name_of t /\ stale_batch c t f p defer') \/ unlisted (e_disk e') n) ->
+  Live c nb w0 (e_disk e') defer' /\ sp_of (sh (e_disk e')) = sp_of (e_disk ec').
+Proof.
+  intros Hext HL HRd Hcls.
+  destruct (Rd_post c nb A w0 e' ec ec' X ns (fun n f p => exists t, tail_info (st_segs w0) = Some t /\ n = name_of t /\ stale_batch c t f p defer') Hext HL HRd Hcls)
+    as (A1 & A2 & A3).
+  split; [split; [exact A1|exact A2]|exact A3].
 Qed.
 
 (* ---- fault-free runs keep the disk free of pending batches ---- *)
